@@ -200,16 +200,20 @@ theorem okFS_mono (fr : Bool) : ∀ (n : Nat),
         cases iter <;> try (simp [Frag.okFS] at hok; done)
         cases boe <;> simp [Frag.okFS] at hok
       case letS sp name vty nc oty e =>
-        simp only [Frag.okFS, Bool.false_and, Bool.or_false] at hok
-        simp only [Frag.okFS, Bool.and_eq_true, Bool.or_eq_true] at hok ⊢
-        exact ⟨hok.1, Or.inl hok.2⟩
-      case ret sp oe => cases oe <;> exact hok
+        simp only [Frag.okFS, Bool.and_eq_true] at hok ⊢
+        exact ⟨hok.1, okV_false_mono fr e hok.2⟩
+      case ret sp oe =>
+        cases oe with
+        | none => exact hok
+        | some e =>
+          simp only [Frag.okFS, Bool.and_eq_true] at hok ⊢
+          exact ⟨hok.1, okE_false_mono fr e hok.2⟩
       case brk sp => exact hok
       case cont sp => exact hok
       case whileS sp c body =>
         simp only [Frag.okFS, Bool.and_eq_true] at hok ⊢
         simp only [Frag.depthGS] at hd
-        exact ⟨hok.1, ihB true rt body (by omega) hok.2⟩
+        exact ⟨okE_false_mono fr c hok.1, ihB true rt body (by omega) hok.2⟩
       case loopS sp body =>
         simp only [Frag.okFS] at hok ⊢
         simp only [Frag.depthGS] at hd
@@ -217,25 +221,49 @@ theorem okFS_mono (fr : Bool) : ∀ (n : Nat),
       case exprS sp e =>
         cases e <;> try (simp [Frag.okFS] at hok; done)
         case assign asp op l r =>
-          cases op <;> cases l <;> try (simp [Frag.okFS] at hok; done)
-          all_goals (rename_i g _ sg; cases g <;> cases sg <;> first | exact hok | simp [Frag.okFS] at hok)
+          cases l <;> try (cases op <;> simp [Frag.okFS] at hok; done)
+          case ident isp ity name g isFn sg =>
+            cases op <;> cases g <;> cases sg <;> try (simp [Frag.okFS] at hok; done)
+            · simp only [Frag.okFS] at hok ⊢
+              exact okV_false_mono fr r hok
+            · simp only [Frag.okFS, Bool.and_eq_true] at hok ⊢
+              exact ⟨hok.1, okV_false_mono fr r hok.2⟩
+          case index isp ity b i =>
+            rw [okFS_idxAssign] at hok ⊢
+            simp only [Bool.and_eq_true] at hok ⊢
+            exact ⟨⟨⟨hok.1.1.1, okV_false_mono fr _ hok.1.1.2⟩, okV_false_mono fr r hok.1.2⟩, hok.2⟩
+          case member msp mty b nm mop =>
+            cases mop <;> try (cases op <;> simp [Frag.okFS] at hok; done)
+            rw [okFS_memAssign] at hok ⊢
+            simp only [Bool.and_eq_true] at hok ⊢
+            exact ⟨⟨⟨hok.1.1.1, okV_false_mono fr _ hok.1.1.2⟩, okV_false_mono fr r hok.1.2⟩, hok.2⟩
         case call csp cty base args sw =>
           cases base <;> try (simp [Frag.okFS] at hok; done)
           case member msp mty b nm mop =>
             cases mop <;> cases args <;> try (simp [Frag.okFS] at hok; done)
             rename_i a rest
             cases rest <;> cases sw <;> simp [Frag.okFS] at hok
-          exact hok
+          rename_i isp ity name g f si
+          simp only [Frag.okFS] at hok ⊢
+          by_cases ht : (name == "throw") = true
+          · simp only [ht, if_true] at hok ⊢; exact hok
+          · have ht' : (name == "throw") = false := by simpa using ht
+            by_cases hp : (name == "println") = true
+            · simp only [ht', hp, Bool.false_eq_true, if_false, if_true, Bool.and_eq_true] at hok ⊢
+              exact ⟨⟨⟨hok.1.1.1, okEArgs_false_mono fr args hok.1.1.2⟩, hok.1.2⟩, hok.2⟩
+            · have hp' : (name == "println") = false := by simpa using hp
+              simp only [ht', hp', Bool.false_eq_true, if_false, Bool.and_eq_true] at hok ⊢
+              exact ⟨hok.1, okE_false_mono fr _ hok.2⟩
         case ifE isp ty c t el =>
           cases el with
           | some eb =>
             simp only [Frag.okFS, Bool.and_eq_true] at hok ⊢
             simp only [Frag.depthGS] at hd
-            exact ⟨⟨hok.1.1, ihB il rt t (by omega) hok.1.2⟩, ihB il rt eb (by omega) hok.2⟩
+            exact ⟨⟨⟨hok.1.1.1, okE_false_mono fr c hok.1.1.2⟩, ihB il rt t (by omega) hok.1.2⟩, ihB il rt eb (by omega) hok.2⟩
           | none =>
             simp only [Frag.okFS, Bool.and_eq_true] at hok ⊢
             simp only [Frag.depthGS] at hd
-            exact ⟨hok.1, ihB il rt t (by omega) hok.2⟩
+            exact ⟨⟨hok.1.1, okE_false_mono fr c hok.1.2⟩, ihB il rt t (by omega) hok.2⟩
         case tryE tsp ty t ci c =>
           simp only [Frag.okFS, Bool.and_eq_true] at hok ⊢
           simp only [Frag.depthGS] at hd
@@ -261,7 +289,7 @@ theorem okFS_mono (fr : Bool) : ∀ (n : Nat),
                 simp only [Frag.okFArmsS, Bool.and_eq_true] at hoka ⊢
                 simp only [Frag.depthGArmsS] at hda
                 exact ⟨⟨hoka.1.1, ihB il rt b (by omega) hoka.1.2⟩, iha (by omega) hoka.2⟩
-            exact ⟨⟨hok.1.1, harms arms (by omega) hok.1.2⟩, ihB il rt db (by omega) hok.2⟩
+            exact ⟨⟨⟨hok.1.1.1, okE_false_mono fr c hok.1.1.2⟩, harms arms (by omega) hok.1.2⟩, ihB il rt db (by omega) hok.2⟩
     · intro il rt ss hd hok
       cases ss with
       | nil => rfl
